@@ -1466,93 +1466,93 @@ func pendingPopRule(r *Rule, w *World, pkgRel, st, field string) {
 }
 
 func cloudReleaseRule(c *Ctx, r *Rule, hi *ssa.Function, fns map[string]*ssa.Function, fields ...string) {
-		pd := newPostDom(hi)
-		for _, kf := range fields {
-			kind := struct {
-				field string
-				fn    *ssa.Function
-			}{kf, fns[kf]}
-			// the lookup of this map by info.IP happens on every path
-			var lk *ssa.Lookup
-			eachInstr(hi, func(in ssa.Instruction) {
-				if l, ok := in.(*ssa.Lookup); ok && strings.HasSuffix(pathOf(l.X), "."+kind.field) && strings.HasSuffix(pathOf(l.Index), ".IP") {
-					lk = l
-				}
-			})
-			if lk == nil {
-				r.Fail("release:"+kind.field+":lookup", hi.Pos(), "no lookup of "+kind.field+"[info.IP]")
-				continue
+	pd := newPostDom(hi)
+	for _, kf := range fields {
+		kind := struct {
+			field string
+			fn    *ssa.Function
+		}{kf, fns[kf]}
+		// the lookup of this map by info.IP happens on every path
+		var lk *ssa.Lookup
+		eachInstr(hi, func(in ssa.Instruction) {
+			if l, ok := in.(*ssa.Lookup); ok && strings.HasSuffix(pathOf(l.X), "."+kind.field) && strings.HasSuffix(pathOf(l.Index), ".IP") {
+				lk = l
 			}
-			entry := hi.Blocks[0]
-			r.Check("release:"+kind.field+":checked-on-every-result", lk.Block() == entry || pd.PostDominates(lk.Block(), entry), lk.Pos(), kind.field+" is examined for every lookup result (not only when the other queue was empty)")
-			// go <fn>(ctx, info.Instance, <parked value>) together with delete
-			var gos []*ssa.Go
-			eachInstr(hi, func(in ssa.Instruction) {
-				if g, ok := in.(*ssa.Go); ok && staticCallee(g) == kind.fn {
-					gos = append(gos, g)
-				}
-			})
-			if !r.Check("release:"+kind.field+":one-goroutine", len(gos) == 1, hi.Pos(), fmt.Sprintf("%d go %s sites", len(gos), kind.fn.Name())) {
-				continue
-			}
-			g := gos[0]
-			a := g.Call.Args
-			// "take" form: the parked value travels through a variable that is nil when nothing was parked
-			takeForm := false
-			if ph, isPhi := a[3].(*ssa.Phi); isPhi {
-				takeForm = true
-				for _, e := range ph.Edges {
-					if !isNilConst(e) && e != ssa.Value(lk) {
-						takeForm = false
-					}
-				}
-			}
-			r.Check("release:"+kind.field+":passes-parked", a[3] == ssa.Value(lk) || takeForm, g.Pos(), "the goroutine receives the parked value that was looked up")
-			r.Check("release:"+kind.field+":passes-instance", strings.HasSuffix(pathOf(a[2]), ".Instance"), g.Pos(), "the goroutine receives info.Instance")
-			var del ssa.CallInstruction
-			for _, cl := range callsTo(hi, "builtin delete") {
-				if strings.HasSuffix(pathOf(cl.Common().Args[0]), "."+kind.field) && strings.HasSuffix(pathOf(cl.Common().Args[1]), ".IP") {
-					del = cl
-				}
-			}
-			guard := strings.Join(condStrings(g.Block()), " && ")
-			fs := factsAt(g.Block())
-			isParked := func(v ssa.Value) bool { return v == ssa.Value(lk) }
-			if takeForm && del != nil && del.Block() != g.Block() {
-				// the delete and the go statement stand under two tests of the same fact; decided on paths
-				// (a branch on the carried value is followed only in the direction its origin allows):
-				// every path performs neither, or the delete and then the go statement, and the delete
-				// itself happens exactly when something is parked
-				res := runAutomaton(hi, 0, func(in ssa.Instruction) int {
-					if in == del.(ssa.Instruction) {
-						return 0
-					}
-					if in == ssa.Instruction(g) {
-						return 1
-					}
-					return -1
-				}, func(st, ev int) int {
-					switch {
-					case ev == 0 && st == 0:
-						return 1
-					case ev == 1 && st == 1:
-						return 2
-					}
-					return -1
-				})
-				var m uint32
-				for _, st := range res.ExitStates {
-					m |= st
-				}
-				r.Check("release:"+kind.field+":deleted-with-release", len(res.Errors) == 0 && m&2 == 0, g.Pos(), fmt.Sprintf("on every path the entry is deleted and then exactly one goroutine started, or neither (exit states %b)", m))
-				dfs := factsAt(del.Block())
-				r.Check("release:"+kind.field+":guard", len(dfs) == 1 && (knownNonNil(dfs, isParked) || knownNonEmpty(dfs, isParked)), del.Pos(), "released under exactly one condition (something is parked): "+strings.Join(condStrings(del.Block()), " && "))
-				continue
-			}
-			r.Check("release:"+kind.field+":deleted-with-release", del != nil && del.Block() == g.Block(), g.Pos(), "the entry is deleted in the same branch that starts the goroutine")
-			// guard: non-nil / non-empty
-			r.Check("release:"+kind.field+":guard", len(fs) == 1 && (knownNonNil(fs, isParked) || knownNonEmpty(fs, isParked)), g.Pos(), "released under exactly one condition (something is parked): "+guard)
+		})
+		if lk == nil {
+			r.Fail("release:"+kind.field+":lookup", hi.Pos(), "no lookup of "+kind.field+"[info.IP]")
+			continue
 		}
+		entry := hi.Blocks[0]
+		r.Check("release:"+kind.field+":checked-on-every-result", lk.Block() == entry || pd.PostDominates(lk.Block(), entry), lk.Pos(), kind.field+" is examined for every lookup result (not only when the other queue was empty)")
+		// go <fn>(ctx, info.Instance, <parked value>) together with delete
+		var gos []*ssa.Go
+		eachInstr(hi, func(in ssa.Instruction) {
+			if g, ok := in.(*ssa.Go); ok && staticCallee(g) == kind.fn {
+				gos = append(gos, g)
+			}
+		})
+		if !r.Check("release:"+kind.field+":one-goroutine", len(gos) == 1, hi.Pos(), fmt.Sprintf("%d go %s sites", len(gos), kind.fn.Name())) {
+			continue
+		}
+		g := gos[0]
+		a := g.Call.Args
+		// "take" form: the parked value travels through a variable that is nil when nothing was parked
+		takeForm := false
+		if ph, isPhi := a[3].(*ssa.Phi); isPhi {
+			takeForm = true
+			for _, e := range ph.Edges {
+				if !isNilConst(e) && e != ssa.Value(lk) {
+					takeForm = false
+				}
+			}
+		}
+		r.Check("release:"+kind.field+":passes-parked", a[3] == ssa.Value(lk) || takeForm, g.Pos(), "the goroutine receives the parked value that was looked up")
+		r.Check("release:"+kind.field+":passes-instance", strings.HasSuffix(pathOf(a[2]), ".Instance"), g.Pos(), "the goroutine receives info.Instance")
+		var del ssa.CallInstruction
+		for _, cl := range callsTo(hi, "builtin delete") {
+			if strings.HasSuffix(pathOf(cl.Common().Args[0]), "."+kind.field) && strings.HasSuffix(pathOf(cl.Common().Args[1]), ".IP") {
+				del = cl
+			}
+		}
+		guard := strings.Join(condStrings(g.Block()), " && ")
+		fs := factsAt(g.Block())
+		isParked := func(v ssa.Value) bool { return v == ssa.Value(lk) }
+		if takeForm && del != nil && del.Block() != g.Block() {
+			// the delete and the go statement stand under two tests of the same fact; decided on paths
+			// (a branch on the carried value is followed only in the direction its origin allows):
+			// every path performs neither, or the delete and then the go statement, and the delete
+			// itself happens exactly when something is parked
+			res := runAutomaton(hi, 0, func(in ssa.Instruction) int {
+				if in == del.(ssa.Instruction) {
+					return 0
+				}
+				if in == ssa.Instruction(g) {
+					return 1
+				}
+				return -1
+			}, func(st, ev int) int {
+				switch {
+				case ev == 0 && st == 0:
+					return 1
+				case ev == 1 && st == 1:
+					return 2
+				}
+				return -1
+			})
+			var m uint32
+			for _, st := range res.ExitStates {
+				m |= st
+			}
+			r.Check("release:"+kind.field+":deleted-with-release", len(res.Errors) == 0 && m&2 == 0, g.Pos(), fmt.Sprintf("on every path the entry is deleted and then exactly one goroutine started, or neither (exit states %b)", m))
+			dfs := factsAt(del.Block())
+			r.Check("release:"+kind.field+":guard", len(dfs) == 1 && (knownNonNil(dfs, isParked) || knownNonEmpty(dfs, isParked)), del.Pos(), "released under exactly one condition (something is parked): "+strings.Join(condStrings(del.Block()), " && "))
+			continue
+		}
+		r.Check("release:"+kind.field+":deleted-with-release", del != nil && del.Block() == g.Block(), g.Pos(), "the entry is deleted in the same branch that starts the goroutine")
+		// guard: non-nil / non-empty
+		r.Check("release:"+kind.field+":guard", len(fs) == 1 && (knownNonNil(fs, isParked) || knownNonEmpty(fs, isParked)), g.Pos(), "released under exactly one condition (something is parked): "+guard)
+	}
 }
 
 // goValueOrigin: v is used inside the function literal cl started by the go statement g; returns the
